@@ -166,7 +166,10 @@ def gen_case(seed: int, prop: str, tier: str) -> dict:
         hist2 = []
         for op in hist:
             if rng.random() < 0.08:
-                hist2.append(["eio", 0, rng.choice([1, 1, 2, 3, 5, 8])])
+                # (real samples are literal bytes throughout - the storage fake cannot tell their tables from their payload - so the
+                # short-delivery flavour, which only applies to field-structured metadata, is kept to the stub worlds)
+                kinds = ["eio", "eio", "eio_partial", "short_meta"] if src["kind"] != "fixture" else ["eio", "eio_partial"]
+                hist2.append(["eio", 0, rng.choice([1, 1, 2, 3, 5, 8]), rng.choice(kinds)])
             hist2.append(op)
         case["hist"] = hist2
         case["io_faults"] = True
@@ -349,19 +352,17 @@ def run_case(case: dict) -> RunResult:
             for op in case["hist"]:
                 kind, c = op[0], op[1]
                 if kind == "eio":
-                    for _, h in world.handles:
-                        if not h.closed:
-                            h.eio_at = h.reads + op[2]
-                    log.add("injector", "arm-eio", op[2], len(world.handles))
+                    world.arm_io_fault(op[2], op[3] if len(op) > 3 else "eio")
+                    log.add("injector", "arm-" + (op[3] if len(op) > 3 else "eio"), op[2], len(world.handles))
                     continue
-                fired0 = world.faults_fired["eio_on_read"]
+                fired0 = world.io_faults_fired()
                 try:
                     s = get_stream(c)
                 except BudgetExceeded:
                     viol = v("budget", "open did not finish within the step budget")
                     break
                 except Exception as e:
-                    if world.faults_fired["eio_on_read"] > fired0:
+                    if world.io_faults_fired() > fired0:
                         world.probes["stream.open_failed_on_injected_eio"] += 1
                         continue  # opening met an injected I/O error: the client tries again at its next operation
                     viol = v("raised:" + type(e).__name__, f"open of client {c} raised {type(e).__name__}: {e}"[:300])
@@ -419,7 +420,7 @@ def run_case(case: dict) -> RunResult:
                 except Exception as e:
                     tb = traceback.extract_tb(e.__traceback__)[-1]
                     log.add(f"c{c}", kind, op[2:], "raised:" + type(e).__name__)
-                    if world.faults_fired["eio_on_read"] > fired0:
+                    if world.io_faults_fired() > fired0:
                         # the operation met an injected I/O error: failing is fine. The client re-positions and carries on.
                         world.probes["stream.op_failed_on_injected_eio"] += 1
                         try:
